@@ -1,34 +1,297 @@
 /-
-C13 — property theorems (work in progress; see the end of this file for what is proved).
+C13 — `syntax-rules` macros: property theorems.
+
+Model M (SteelVerif/C13/Model.lean) follows expander.rs / replace_idents.rs / rename_idents.rs /
+expand_visitor.rs; S is R7RS matching with binding trees plus a Kohlbecker-style expander (`expandS`).
+
+Proved here, for ALL patterns / forms / programs (induction, no bounds):
+  * `match_exact`     : matching a form and re-instantiating the pattern as a template gives the form back, and
+                        every pattern variable is bound  (guard: `PatOK`, `userForm`, disjoint spellings)
+  * `match_complete`  : after a successful match `collect_bindings` never fails (guard: well-formed pattern)
+  * `match_literal`   : a literal matches exactly the identifier of that spelling that is not bound at the use site
+  * `expand_fuel_mono`: more fuel never changes an `ok` result of the expander
+  * `not_hygiene`     : the full statement `Hygiene` is false for M — witnesses = D8's programs, by `decide`;
+                        one witness per conjunct of the guard that can be violated (`G.a`, `G.b`, `G.c`, `G.d`)
+  * `match_exact_needs_guard_e/_clean` : the guards of `match_exact` are necessary (witnesses by `decide`)
+NOT proved: `hygiene_partial : G prog → expandM prog ≈α expandS prog`.  The statement is kept (`HygienePartial`);
+what is missing is a simulation between M's `##`-prefix renaming and S's stamps through nested expansions
+(every `##x` occurrence of one template instance stays in the scope of that instance's binder) and the
+agreement of M's matcher/instantiator with the R7RS one on arbitrary templates (only the pattern-as-template
+case is proved, `match_exact`).  Inside `G` the property is checked by the differential run only.
 -/
-import SteelVerif.C13.Model
+import SteelVerif.C13.LemmasComplete
+import SteelVerif.C13.LemmasFuel
 namespace SteelVerif.C13
+set_option linter.unusedSimpArgs false
+set_option linter.unusedVariables false
 
-/-- Programs as Lean terms (the witnesses of D8). -/
-def sx (s : String) : Sexp := Sexp.ident s
-def lst (xs : List Sexp) : Sexp := .list xs false
+/-! ## Matching and instantiation -/
 
-/-- `(define-syntax or2 (syntax-rules () [(_ a b) (let ((tmp a)) (if tmp tmp b))]))` -/
-def defOr2 : Sexp :=
-  lst [.kw .defineSyntax, sx "or2", lst [.kw .syntaxRules, lst [],
-    lst [lst [sx "_", sx "a", sx "b"],
-         lst [.kw .let_, lst [lst [sx "tmp", sx "a"]], lst [.kw .if_, sx "tmp", sx "tmp", sx "b"]]]]]
+/-- A form as the reader produces it from what a user writes: no ellipsis token, identifiers without
+expander marks, dotted lists normalised. -/
+def userForm (f : Sexp) : Prop := f.hasEllipsis = false ∧ f.isPlain = true ∧ normal f = true
 
-/-- `(define-syntax m2 (syntax-rules () [(_ a) (let ((tmp 1)) (or2 a tmp))]))` -/
-def defM2 : Sexp :=
-  lst [.kw .defineSyntax, sx "m2", lst [.kw .syntaxRules, lst [],
-    lst [lst [sx "_", sx "a"],
-         lst [.kw .let_, lst [lst [sx "tmp", .int 1]], lst [sx "or2", sx "a", sx "tmp"]]]]]
+/-- Side conditions on a compiled pattern list — what `parse_from_list` guarantees (one ellipsis per list,
+distinct variables, literals are not variables) minus the class of finding K13e (an ellipsis followed by a
+dotted tail in the same list). -/
+def PatOK (ps : List Pat) : Prop :=
+  wfList ps = true ∧ (Pat.varsList ps).Nodup ∧ ∀ s ∈ Pat.litsList ps, s ∉ Pat.varsList ps
 
-def witnessB : Prog := { globals := [nm "list"], forms := [defOr2, defM2, lst [sx "m2", .bool false]] }
+/-- `match_exact`: if `matchP` (= `match_list_pattern` + `collect_bindings`) succeeds on a user form, then
+instantiating the pattern read as a template (`tmplList`) under the collected bindings gives exactly the
+form back (so every pattern variable is bound to exactly the matched sub-forms, at the right ellipsis
+depth), and every pattern variable is bound.  `hdisj`: no identifier of the form is spelled like a (mangled)
+pattern variable — steel's instantiator re-visits spliced forms, see `match_exact_needs_clean`. -/
+theorem match_exact (sc : List Name) (c : ICtx) (ps : List Pat) (xs : List Sexp) (imp : Bool) (env : Env)
+    (hp : PatOK ps) (hu : userForm (.list xs imp))
+    (hdisj : ∀ k ∈ Sexp.idsList xs, k ∉ Pat.varsList ps)
+    (hm : matchP sc ps xs imp = some env) :
+    instantiate c env (.list (tmplList ps) (lastIsRest ps)) (Sexp.list xs imp).depth = .ok (.list xs imp) ∧
+      ∀ v ∈ Pat.varsList ps, env.b.get v ≠ none := by
+  obtain ⟨hwf, hnd, hlit⟩ := hp
+  obtain ⟨he, hpl, hn⟩ := hu
+  simp only [matchP] at hm
+  split at hm
+  · rename_i hml
+    split at hm
+    · rename_i e hcol
+      cases hm
+      rw [matchList_eq] at hml
+      rw [collect_eq] at hcol
+      have hE := exact1_all (.nested ps) (by simpa [wf1] using hwf) (by simpa [Pat.vars] using hnd)
+        (.list xs imp) sc {} env hn hml hcol
+      have hframe := collectOne_frame (.nested ps) (.list xs imp) {} env hcol
+      have hkeys : ∀ k, k ∉ Pat.varsList ps → env.b.get k = none := by
+        intro k hk
+        rw [hframe.1 k (by simpa [Pat.vars] using hk)]; rfl
+      refine ⟨?_, by simpa [Pat.vars] using hE.1⟩
+      simp only [instantiate]
+      have := hE.2 env (((Sexp.list (tmplList ps) (lastIsRest ps)).depth + (Sexp.list xs imp).depth + 2)) c []
+        (fun v _ => ⟨rfl, fun h => h⟩)
+        ⟨fun k hk => hkeys k (hdisj k (by simpa [Sexp.ids] using hk)), he, hpl, hn⟩
+        (fun s hs => hkeys s (hlit s (by simpa [Pat.lits] using hs)))
+        (by omega)
+      simpa [tmpl1] using this
+    · cases hm
+  · cases hm
 
+/-- `match_complete`: for a well-formed pattern list, whenever the boolean matcher accepts a (normalised)
+form the binding collector succeeds — expansion never fails between "case selected" and "template
+instantiated". -/
+theorem match_complete (sc : List Name) (ps : List Pat) (xs : List Sexp) (imp : Bool)
+    (hwf : wfList ps = true) (hn : normal (.list xs imp) = true)
+    (hm : matchList sc ps xs imp = true) : ∃ env, matchP sc ps xs imp = some env := by
+  rw [matchList_eq] at hm
+  obtain ⟨e, he⟩ := complete1_all (.nested ps) (by simpa [wf1] using hwf) (.list xs imp) sc {} hn hm
+  refine ⟨e, ?_⟩
+  simp only [matchP, matchList_eq, hm, if_true, collect_eq, he]
+
+/-- `match_literal`: a literal of `(syntax-rules (lits…) …)` matches a form iff the form is the identifier
+of exactly that spelling and no binder of that spelling is in scope at the use site (or the form is the
+ellipsis token — steel's `MacroPattern::Syntax` arm accepts `TokenType::Ellipses`). -/
+theorem match_literal (sc : List Name) (s : Name) (f : Sexp) :
+    matchSingle sc (.lit s) f = true ↔ (∃ m, f = .id s m ∧ s ∉ sc) ∨ f = .kw .ellipsis := by
+  cases f with
+  | id n m =>
+      simp only [matchSingle, Bool.and_eq_true, Bool.not_eq_true', List.contains_eq_false]
+      constructor
+      · rintro ⟨h1, h2⟩
+        have : n = s := by simpa [name_beq_iff] using h1
+        subst this
+        exact Or.inl ⟨m, rfl, by simpa using h2⟩
+      · rintro (⟨m', h1, h2⟩ | h)
+        · cases h1
+          exact ⟨by simp, by simpa using h2⟩
+        · cases h
+  | kw k => cases k <;> simp [matchSingle]
+  | int i => simp [matchSingle]
+  | bool b => simp [matchSingle]
+  | list xs i => simp [matchSingle]
+
+/-! ## Expansion -/
+
+/-- `expand_fuel_mono`: more fuel never changes an `ok` result (of one form, and of a whole program). -/
+theorem expand_fuel_mono (me : MEnv) (lex : List Name) (f f' : Nat) (hle : f ≤ f') (d : Nat) (sc : List Name)
+    (e : Sexp) (r : Sexp × List Name × Flags) (h : expM me lex f d sc e = .ok r) :
+    expM me lex f' d sc e = .ok r := exp_mono_le me lex f f' hle d sc e r h
+
+theorem expandM_fuel_mono (f f' : Nat) (hle : f ≤ f') (p : Prog) (r : List Sexp × Flags)
+    (h : expandM f p = .ok r) : expandM f' p = .ok r := by
+  induction hle with
+  | refl => exact h
+  | step _ ih =>
+      simp only [expandM] at ih ⊢
+      cases hc : compileAll (p.forms.filter isDefineSyntax) with
+      | error e => simp [hc] at ih
+      | ok ms =>
+          simp only [hc] at ih ⊢
+          exact runMForms_mono _ _ _ _ ih
+
+/-! ## Hygiene -/
+
+/-- M and S agree on a program: both expansions succeed with α-equivalent results, or both report an
+error. -/
 def hygienicAt (fuel : Nat) (p : Prog) : Bool :=
   match expandM fuel p, expandS fuel p with
   | .ok (a, _), .ok b => alphaEq a b
   | .error _, .error _ => true
   | _, _ => false
 
+/-- The full statement of the property for the mechanism that exists.  It is FALSE (`not_hygiene`). -/
+def Hygiene : Prop := ∀ (fuel : Nat) (p : Prog), hygienicAt fuel p = true
+
+/-- The classification of a program: the flags raised while M expands it (static ones if M fails). -/
+def classify (fuel : Nat) (p : Prog) : Flags :=
+  match expandM fuel p with
+  | .ok (_, fl) => fl
+  | .error _ => staticFlags p
+
+/-- The decidable guard: no conjunct is violated.
+`a`: no local binder in scope at a use is spelled like a free identifier of the template it reaches (nor is
+     such a spelling handed to a binder position of the template);
+`b`: no two nested template expansions introduce the same spelling and exchange identifiers;
+`c`: no literal passed on by a template is shadowed at the use site;
+`d`,`e`,`f`,`g`: see `Flags`. -/
+def G (fuel : Nat) (p : Prog) : Bool := (classify fuel p).none
+
+/-- The statement that remains to be proved (kept visible; see the header for what is missing). -/
+def HygienePartial : Prop := ∀ (fuel : Nat) (p : Prog), G fuel p = true → hygienicAt fuel p = true
+
+def sx (s : String) : Sexp := Sexp.ident s
+def lst (xs : List Sexp) : Sexp := .list xs false
+def defSyntax (name : String) (lits : List Sexp) (cases : List (Sexp × Sexp)) : Sexp :=
+  lst [.kw .defineSyntax, sx name, lst (.kw .syntaxRules :: lst lits :: cases.map (fun c => lst [c.1, c.2]))]
+
+/-- `(define-syntax or2 (syntax-rules () [(_ a b) (let ((tmp a)) (if tmp tmp b))]))` -/
+def defOr2 : Sexp :=
+  defSyntax "or2" [] [(lst [sx "_", sx "a", sx "b"],
+    lst [.kw .let_, lst [lst [sx "tmp", sx "a"]], lst [.kw .if_, sx "tmp", sx "tmp", sx "b"]])]
+
+/-- D8 (a): `(define-syntax m2 (syntax-rules () [(_ a) (let ((tmp 1)) (or2 a tmp))]))`, `(m2 #f)`. -/
+def witnessB : Prog :=
+  { globals := [nm "list"],
+    forms := [defOr2,
+      defSyntax "m2" [] [(lst [sx "_", sx "a"],
+        lst [.kw .let_, lst [lst [sx "tmp", .int 1]], lst [sx "or2", sx "a", sx "tmp"]])],
+      lst [sx "m2", .bool false]] }
+
+/-- D8 (b): `(define-syntax uses-list (syntax-rules () [(_ a) (list a a)]))`,
+`(let ((list (lambda args 'shadowed))) (uses-list 1))`. -/
+def witnessA : Prog :=
+  { globals := [nm "list"],
+    forms := [defSyntax "uses-list" [] [(lst [sx "_", sx "a"], lst [sx "list", sx "a", sx "a"])],
+      lst [.kw .let_, lst [lst [sx "list", lst [.kw .lambda, sx "args", lst [.kw .quote, sx "shadowed"]]]],
+        lst [sx "uses-list", .int 1]]] }
+
+/-- `(define-syntax my-if (syntax-rules (then) [(_ c then t) (if c t 0)] [(_ c x t) 'no-literal]))`,
+`(define-syntax outer (syntax-rules () [(_ c) (my-if c then 5)]))`, `(let ((then 1)) (outer #t))`. -/
+def witnessC : Prog :=
+  { globals := [nm "list"],
+    forms := [defSyntax "my-if" [sx "then"]
+        [(lst [sx "_", sx "c", sx "then", sx "t"], lst [.kw .if_, sx "c", sx "t", .int 0]),
+         (lst [sx "_", sx "c", sx "x", sx "t"], lst [.kw .quote, sx "no-literal"])],
+      defSyntax "outer" [] [(lst [sx "_", sx "c"], lst [sx "my-if", sx "c", sx "then", .int 5])],
+      lst [.kw .let_, lst [lst [sx "then", .int 1]], lst [sx "outer", .bool true]]] }
+
+/-- `(define x 5)`, `(define-syntax m (syntax-rules () [(_) (list (let ((x 1)) x) x)]))`, `(m)`. -/
+def witnessD : Prog :=
+  { globals := [nm "list"],
+    forms := [lst [.kw .define, sx "x", .int 5],
+      defSyntax "m" [] [(lst [sx "_"],
+        lst [sx "list", lst [.kw .let_, lst [lst [sx "x", .int 1]], sx "x"], sx "x"])],
+      lst [sx "m"]] }
+
 set_option maxRecDepth 100000 in
-example : hygienicAt 40 witnessB = false := by decide
+/-- ¬`G.b`: nested templates introduce the same spelling and exchange identifiers. -/
+theorem not_hygiene_b : (classify 40 witnessB).b = true ∧ hygienicAt 40 witnessB = false := by decide
+
+set_option maxRecDepth 100000 in
+/-- ¬`G.a`: a use-site binder is spelled like a free identifier of the template. -/
+theorem not_hygiene_a : (classify 40 witnessA).a = true ∧ hygienicAt 40 witnessA = false := by decide
+
+set_option maxRecDepth 100000 in
+/-- ¬`G.c`: a literal that a template passes on is shadowed at the use site. -/
+theorem not_hygiene_c : (classify 40 witnessC).c = true ∧ hygienicAt 40 witnessC = false := by decide
+
+set_option maxRecDepth 100000 in
+/-- ¬`G.d`: a template uses the spelling of its own binder outside the binder's scope. -/
+theorem not_hygiene_d : (classify 40 witnessD).d = true ∧ hygienicAt 40 witnessD = false := by decide
+
+/-- The full hygiene statement does not hold for the mechanism (D8). -/
+theorem not_hygiene : ¬ Hygiene := fun h => by
+  have := h 40 witnessB
+  rw [not_hygiene_b.2] at this
+  cases this
+
+/-! ## The guards of `match_exact` are necessary -/
+
+/-- Pattern `(a ... . r)` (ellipsis followed by a dotted tail — excluded by `PatOK`, finding K13e) on the
+proper list `(1 2 3)`: the matcher accepts, the collector binds `a = (1 2)`, `r = (3)`. -/
+theorem match_exact_needs_guard_e :
+    let ps := [Pat.many (.var (nm "a")), Pat.rest (.var (nm "r"))]
+    let xs := [Sexp.int 1, .int 2, .int 3]
+    wfList ps = false ∧
+    (match matchP [] ps xs false with
+     | some env => env.b.get (nm "a") == some (Sexp.list [.int 1, .int 2] false) &&
+                   env.b.get (nm "r") == some (Sexp.list [.int 3] false)
+     | none => false) = true := by decide
+
+/-- … and on `()` the collector hits `usize` underflow (a panic in steel). -/
+theorem collect_panics_e :
+    matchList [] [Pat.many (.var (nm "a")), Pat.rest (.var (nm "r"))] [] false = true ∧
+    (match collect [Pat.many (.var (nm "a")), Pat.rest (.var (nm "r"))] [] false with
+     | .error .panic => true
+     | _ => false) = true := by decide
+
+/-- A form that contains an identifier spelled like a pattern variable (`hdisj` violated): the spliced forms
+are visited again and substituted a second time. -/
+theorem match_exact_needs_clean :
+    let ps := [Pat.var (nm "a"), Pat.many (.var (nm "b"))]
+    let xs := [Sexp.int 7, Sexp.ident "a", Sexp.ident "a"]
+    (match matchP [] ps xs false with
+     | some env =>
+         (match instantiate {} env (.list (tmplList ps) (lastIsRest ps)) 2 with
+          | .ok r => r == Sexp.list [.int 7, .int 7, .int 7] false
+          | .error _ => false)
+     | none => false) = true := by decide
+
+/-! ## Non-vacuity -/
+
+/-- Pattern `(k (w v ...) ...)` — nested ellipses of depth 2. -/
+def exPat : List Pat :=
+  [.var (nm "k"), .many (.nested [.var (nm "w"), .many (.var (nm "v"))])]
+
+/-- `(a (x 1 2) (y) (z 3))` -/
+def exForm : List Sexp :=
+  [sx "a", lst [sx "x", .int 1, .int 2], lst [sx "y"], lst [sx "z", .int 3]]
+
+example : PatOK exPat := by decide
+example : userForm (.list exForm false) := by decide
+example : (matchP [] exPat exForm false).isSome = true := by decide
+example : ∀ k ∈ Sexp.idsList exForm, k ∉ Pat.varsList exPat := by decide
+
+/-- `match_exact` applied to the example (the hypotheses are satisfiable and the conclusion is about a
+depth-2 ellipsis). -/
+example : ∃ env, matchP [] exPat exForm false = some env ∧
+    instantiate {} env (.list (tmplList exPat) (lastIsRest exPat)) (Sexp.list exForm false).depth
+      = .ok (.list exForm false) := by
+  obtain ⟨env, henv⟩ := match_complete [] exPat exForm false (by decide) (by decide) (by decide)
+  exact ⟨env, henv, (match_exact [] {} exPat exForm false env (by decide) (by decide) (by decide) henv).1⟩
+
+/-- a dotted pattern `(a b . r)` on `(1 2 3 . 4)` -/
+example : (matchP [] [.var (nm "a"), .var (nm "b"), .rest (.var (nm "r"))]
+    [.int 1, .int 2, .int 3, .int 4] true).isSome = true := by decide
+
+/-- `match_literal`: `else` matches `else` unless a binder `else` is in scope. -/
+example : matchSingle [] (.lit (nm "else")) (sx "else") = true ∧
+    matchSingle [nm "else"] (.lit (nm "else")) (sx "else") = false := by decide
+
+set_option maxRecDepth 100000 in
+/-- The guard is satisfiable and inside it M and S agree on a program that needs renaming:
+`(let ((tmp 5)) (or2 #f tmp))`. -/
+example :
+    let p : Prog := { globals := [nm "list"],
+      forms := [defOr2, lst [.kw .let_, lst [lst [sx "tmp", .int 5]], lst [sx "or2", .bool false, sx "tmp"]]] }
+    G 40 p = true ∧ hygienicAt 40 p = true := by decide
 
 end SteelVerif.C13
